@@ -54,6 +54,8 @@ def parseOp (line : String) : Option Op :=
   | ["call", a, b, c, d, e] => do some (.call (← n? a) (← n? b) (← n? c) (← n? d) (← n? e))
   | ["rmcall", a] => do some (.rmcall (← n? a))
   | ["sweep"] => some .sweep
+  | ["rmcalln", a] => do some (.rmcalln (← n? a))
+  | ["rmall", a] => do some (.rmall (← n? a))
   | ["sent", a, b, c, d] => do some (.sent (← n? a) (← n? b) (← n? c) (← n? d))
   | ["rmsent", a] => do some (.rmsent (← n? a))
   | ["err", a, b] => do some (.err (← n? a) (← n? b))
@@ -65,6 +67,8 @@ def parseOp (line : String) : Option Op :=
   | ["srange", a, b, c, w] => do some (.srange (← n? a) (← n? b) (← n? c) w)
   | ["inp", a, b, c] => do some (.inp (← n? a) (← n? b) (← n? c))
   | ["input"] => some .input
+  | ["rest", w] => some (.rest w)
+  | ["resto", w] => some (.resto w)
   | ["clones", a] => do some (.clones (← n? a))
   | ["unclone", a] => do some (.unclone (← n? a))
   | _ => none
@@ -102,6 +106,8 @@ def unitOnly : Op → Bool
 def lpcOnly : Op → Bool
   | .err _ _ => true
   | .efun _ _ _ => true
+  | .rest _ => true
+  | .resto _ => true
   | .srange _ _ _ _ => true
   | _ => false
 
